@@ -60,6 +60,9 @@ def build(case):
     else:
         raise ValueError(deliv)
     w = ('"%s"' % ref) if quote == "dq" else ref
+    if pos == "cmd":
+        # the expansion is the command word itself: whatever it yields names a program (that does not exist)
+        return pre + w + " p1 p2", extra, None
     nb_written, nb_value = NEIGHBOURS[case.get("nb", 0)]
     words = [nb_written, "p2"]
     words.insert(pos, w)
@@ -100,6 +103,10 @@ def symptom(case, expargs, r, recs, before, after):
     other = [x for x in recs if x["name"] not in ("vp_argv", "vp_out")]
     if other:
         return "extra-command-ran"
+    if case["pos"] == "cmd":
+        # no redirection happened (listing unchanged, checked above) and nothing else ran; which error the
+        # shell reports for the unknown program name is not this property's business
+        return "extra-command-ran" if main else None
     if len(main) != 1:
         return "program-ran-%d-times" % len(main)
     m = main[0]
@@ -144,7 +151,7 @@ def judge(case):
     if sym == "TIMEOUT":
         return ("inconclusive", "timeout", res)
     return ("violated", "C13:%s:%s:value=%s:pos=%s:neighbour=%s%s:%s" % (
-        case["delivery"], case["quote"], case["cls"], ["first", "middle", "last"][case["pos"]],
+        case["delivery"], case["quote"], case["cls"], "command-word" if case["pos"] == "cmd" else ["first", "middle", "last"][case["pos"]],
         NEIGHBOURS[case.get("nb", 0)][0].replace(":", ""),
         (":with-genuine-" + case["company"]) if case.get("company") else "", sym), res)
 
@@ -162,6 +169,9 @@ def gen_cases(tier):
                     for pos in (0, 1, 2):
                         for nb in range(len(NEIGHBOURS)):
                             cases.append({"value": v, "cls": cls, "delivery": deliv, "quote": quote, "pos": pos, "nb": nb})
+                    if deliv != "glob" and not (deliv == "backquote-sub" and quote == "unq"):
+                        cases.append({"value": v, "cls": cls, "delivery": deliv, "quote": quote, "pos": "cmd", "nb": 0})
+                    for pos in (0, 1, 2):
                         # the same command also carries a genuine redirection written on the line
                         for company in ("in-file", "here-string", "out-file"):
                             cases.append({"value": v, "cls": cls, "delivery": deliv, "quote": quote, "pos": pos, "nb": 0, "company": company})
@@ -184,7 +194,8 @@ def run(tier, seed):
                 "{$V exported, ${V}, $V assigned in the line, $(cmd), `cmd`, * match of a file with that name} x "
                 "{unquoted, double-quoted} x argument position {first, middle, last} x 7 neighbouring words (plain, quoted, "
                 "backslash-tagged, empty): enumerated completely; every combination again (plain neighbour) with a genuine "
-                "`< f` / `<<< hs` / `> o.txt` written on the same command, which must still be the redirection applied.  "
+                "`< f` / `<<< hs` / `> o.txt` written on the same command, which must still be the redirection applied; and "
+                "every value as the command word itself (no file may appear, nothing may run).  "
                 "Thorough repeats the enumeration with longer random values built from the same operator characters.  "
                 "Non-trivial = always; distinct by case.")
     rep.assumptions = ["unquoted results are compared modulo blank runs"]
